@@ -994,6 +994,8 @@ func init() {
 				return c15RunBig(args)
 			case 5:
 				return c15SameBucket(args)
+			case 6:
+				return c15Sweep(args)
 			}
 			return []string{"9"}
 		}})
